@@ -102,6 +102,7 @@ def gen_write_op(rng, model, prof):
             op["m"] = rng.choice(names)
         if rng.random() < 0.3 and not via_h:
             op["compact"] = True
+        op["ps_form"] = rng.choice(["list", "list", "tuple", "gen", "iter", "values"])
     elif kind == "update":
         op["q"] = targeted_query(rng, model, prof.query_opts)
         op["args"] = gen.gen_update_args(rng)
@@ -146,7 +147,9 @@ def query_probes(rng, model, prof, via_choices=("db",)):
             if kind == "search":
                 op["sorted"] = rng.random() < 0.5
             if kind == "select":
+                op["keys_form"] = rng.choice(["tuple", "list", "gen", "keysview"])
                 op["keys"] = rng.choice([
+                    ["time", "time"], ["tags.k", "fields.x", "tags.k"], ["tags.a b", "fields.x.y"],
                     "time", "measurement", "tags.k", "fields.x", ["time", "tags.j"],
                     ["measurement", "fields.y", "tags.nokey"], ["fields.x"],
                 ])
